@@ -1981,11 +1981,11 @@ func (cs *ConditionsSet) StreamIDs(nextStreamID uint64) (bitmask.LongBitmask, bo
 		if !ok {
 			return bitmask.LongBitmask{}, false
 		}
-		if max > uint(nextStreamID) {
-			max = uint(nextStreamID)
-			if max > 0 {
-				max--
-			}
+		if nextStreamID == 0 {
+			continue
+		}
+		if max >= uint(nextStreamID) {
+			max = uint(nextStreamID) - 1
 		}
 		for i := min; i <= max; i++ {
 			res.Set(uint(i))
